@@ -130,8 +130,13 @@ class _Normalise(ast.NodeTransformer):
 
     def visit_Call(self, node):
         self.generic_visit(node)
-        # b"".join((a, b, c)) over a literal sequence is a + b + c (one canonical form for a fixed concatenation)
         f = node.func
+        # re.compile(P[, flags]).match(s) is re.match(P, s[, flags]) (a pre-compiled pattern and the module-level call are one form)
+        if isinstance(f, ast.Attribute) and f.attr in ("match", "fullmatch", "search", "sub", "subn", "findall", "finditer", "split") and isinstance(f.value, ast.Call) \
+                and ast.unparse(f.value.func) == "re.compile" and 1 <= len(f.value.args) <= 2 and not f.value.keywords and not node.keywords:
+            flags = [ast.keyword(arg="flags", value=f.value.args[1])] if len(f.value.args) == 2 else []
+            return ast.copy_location(ast.Call(func=ast.Attribute(value=ast.Name(id="re", ctx=ast.Load()), attr=f.attr, ctx=ast.Load()), args=[f.value.args[0]] + list(node.args), keywords=flags), node)
+        # b"".join((a, b, c)) over a literal sequence is a + b + c (one canonical form for a fixed concatenation)
         if isinstance(f, ast.Attribute) and f.attr == "join" and isinstance(f.value, ast.Constant) and f.value.value == b"" and len(node.args) == 1 and not node.keywords \
                 and isinstance(node.args[0], (ast.Tuple, ast.List)) and node.args[0].elts and not any(isinstance(x, ast.Starred) for x in node.args[0].elts):
             e = node.args[0].elts[0]
@@ -204,6 +209,9 @@ class ModuleInfo:
             self.renamed_locals = reflocals.restore(relpath, self.tree, dg)
             if ref and ref.get("__digest__") != dg:
                 self.temporaries = reflocals.settle_temporaries(relpath, self.tree)
+                if any(self.derefactored) or any(self.temporaries):
+                    # inlined helpers / constants / temporaries may expose further canonical forms (the pass is idempotent)
+                    self.tree = ast.fix_missing_locations(_normalise(self.tree))
         name = relpath[:-3].replace("/", ".")
         if name.endswith(".__init__"):
             name = name[: -len(".__init__")]
